@@ -36,7 +36,7 @@ for k in range(6):
         b.append((x>>16)&0xff)
     open(os.path.join(d,"golden%d"%k),"wb").write(bytes(b))
 PY
-VERIF_PROP="$ID" timeout 3600 "$BIN" -fork=8 -runs="$RUNS" -seed=$((SEED+1)) -len_control=0 -max_len=1200 \
+ASAN_OPTIONS=detect_leaks=0 VERIF_PROP="$ID" timeout 3600 "$BIN" -fork=8 -runs="$RUNS" -seed=$((SEED+1)) -len_control=0 -max_len=1200 -detect_leaks=0 \
    -artifact_prefix="$ART" "$CORPUS" > "$TD/fuzz-$ID.log" 2>&1
 rc=$?
 iters=$(grep -oE "fuzzed for [0-9]+ iterations" "$TD/fuzz-$ID.log" | grep -oE "[0-9]+" | tail -1)
